@@ -142,6 +142,24 @@ class Worker:
         shutil.rmtree(self.target, ignore_errors=True)
         sh(f"git -C {REPO} worktree prune")
 
+    def suite_only(self, mut):
+        p = os.path.join(self.wt, mut["path"])
+        orig = open(p).read()
+        lines = orig.split("\n")
+        if lines[mut["line"] - 1] != mut["old"]:
+            return dict(mut, suite="stale")
+        lines[mut["line"] - 1] = mut["new"]
+        open(p, "w").write("\n".join(lines))
+        try:
+            t = sh("cargo test --workspace --no-fail-fast --offline 2>&1", cwd=self.wt, env=self.env, timeout=3000)
+            ok = set(re.findall(r"^test (\S+) \.\.\. ok$", t.stdout, re.M))
+            base = json.load(open("/root/.vp/BASELINE.json"))
+            missing = [x for x in base["stable_pass"]
+                       if "::".join(x.split("::")[1:]) not in ok and "::".join(x.split("::")[2:]) not in ok]
+            return dict(mut, suite_kills=bool(missing), suite_failed=missing[:3])
+        finally:
+            open(p, "w").write(orig)
+
     def run(self, pid, mut, suite):
         p = os.path.join(self.wt, mut["path"])
         orig = open(p).read()
@@ -183,7 +201,10 @@ def main():
     ap.add_argument("--suite", action="store_true")
     ap.add_argument("--seed", type=int, default=1)
     ap.add_argument("--out", default=os.path.join(VERIF, "notes", "mutation-run.json"))
+    ap.add_argument("--suite-from", default="", help="run only the pinned suite on the survivors recorded in this file")
     a = ap.parse_args()
+    if a.suite_from:
+        return suite_from(a)
     rng = random.Random(a.seed)
     base = pinned_commit()
     props = [json.loads(l) for l in open(os.path.join(VERIF, "properties.jsonl"))]
@@ -229,6 +250,42 @@ def main():
         k = r["status"] + ("+suite-kills" if r.get("suite_kills") else "")
         s[k] = s.get(k, 0) + 1
     print(json.dumps(summ, indent=1))
+
+
+def suite_from(a):
+    import queue
+    data = json.load(open(a.suite_from))
+    todo = [r for r in data if r.get("status") == "survived" and "suite_kills" not in r]
+    want = set(a.props.split(",")) if a.props else None
+    if want:
+        todo = [r for r in todo if r["property"] in want]
+    # identical source edits listed under several properties are run once
+    uniq = {}
+    for r in todo:
+        uniq.setdefault((r["path"], r["line"], r["new"]), []).append(r)
+    print(f"{len(uniq)} distinct surviving mutants to run against the suite", flush=True)
+    workers = [Worker(100 + i) for i in range(a.workers)]
+    q = queue.Queue()
+    for k in uniq:
+        q.put(k)
+    try:
+        def loop(w):
+            while True:
+                try:
+                    k = q.get_nowait()
+                except queue.Empty:
+                    return
+                res = w.suite_only(uniq[k][0])
+                for r in uniq[k]:
+                    r["suite_kills"] = res.get("suite_kills")
+                    r["suite_failed"] = res.get("suite_failed")
+                print(uniq[k][0]["property"], "suite-kills" if res.get("suite_kills") else "SUITE-PASSES", k[0], k[1], repr(k[2].strip())[:100], flush=True)
+                json.dump(data, open(a.out, "w"), indent=1)
+        with ThreadPoolExecutor(len(workers)) as ex:
+            list(ex.map(loop, workers))
+    finally:
+        for w in workers:
+            w.close()
 
 
 if __name__ == "__main__":
